@@ -326,3 +326,45 @@ def tables_digest(asm):
             for k in sorted(v, key=repr) if not isinstance(v, list) else v:
                 h.update(repr(k).encode() if isinstance(k, (int, str, bytes, tuple)) else str(id(k)).encode())
     return h.hexdigest(), len(names)
+
+
+# --------------------------------------------------------------------------------------
+# P8: which functions of the target did a workload actually enter (evidence only)
+
+class FunctionCoverage:
+    """sys.monitoring PY_START on code objects defined in the target package; each code object reports once (DISABLE)."""
+
+    TOOL = 4
+
+    def __init__(self, repo_dir):
+        self.repo = repo_dir.rstrip('/') + '/bronzebeard/'
+        self.seen = set()
+        self.on = False
+
+    def __enter__(self):
+        import sys
+        mon = getattr(sys, 'monitoring', None)
+        if mon is None:
+            return self
+        try:
+            mon.use_tool_id(self.TOOL, 'bbv-cover')
+        except ValueError:
+            return self
+
+        def start(code, offset):
+            if code.co_filename.startswith(self.repo):
+                self.seen.add('%s:%s' % (code.co_filename[len(self.repo):], code.co_qualname))
+            return mon.DISABLE
+        mon.register_callback(self.TOOL, mon.events.PY_START, start)
+        mon.set_events(self.TOOL, mon.events.PY_START)
+        self.on = True
+        return self
+
+    def __exit__(self, *a):
+        import sys
+        if self.on:
+            mon = sys.monitoring
+            mon.set_events(self.TOOL, 0)
+            mon.register_callback(self.TOOL, mon.events.PY_START, None)
+            mon.free_tool_id(self.TOOL)
+            self.on = False
